@@ -2054,6 +2054,9 @@ def run(chk, F):
     run_r3(chk, sides)
     run_r4(chk, sides, infos)
     run_r5(chk, sides, infos)
+    # guarded narrowing casts of operand values (coordinator's rule, rules/narrowcast.py)
+    from rules import narrowcast
+    narrowcast.run(chk, F, "C08.R6", "dora_asm::arm64", "arm64 assembler (Rust)")
     chk.assumptions += [
         "field *positions* are compared between the two assemblers and against overlap, not against the ARM ARM: a "
         "field moved to another free range in both languages at once is not detected (the unit tests pin positions)",
